@@ -193,6 +193,33 @@ func c09Judge(k c09Case) *vlib.Failure {
 		return f
 	}
 	if k.DiagReq != nil {
+		if nStr, ok := strings.CutPrefix(k.DiagCfg, "big:"); ok {
+			var n int
+			fmt.Sscan(nStr, &n)
+			var names []string
+			for i := 0; i < n; i++ {
+				names = append(names, fmt.Sprintf("X-Header-%04d", i))
+			}
+			m1, err := cors.NewMiddleware(CfgLit{Origins: []string{"https://a.example"}, RequestHeaders: names, Methods: []string{"PUT"}, MaxAge: 60}.Config())
+			if err != nil {
+				return vlib.Failf("configuration with %d request-header names rejected: %v", n, err)
+			}
+			m1.SetDebug(true)
+			res := vlib.Serve(m1.Wrap(noopHandler), nil, *k.DiagReq, nil)
+			listed, _, _ := ref.ExtractList(res.Hdr, "Access-Control-Allow-Headers")
+			for _, want := range k.DiagReq.Hdr["Access-Control-Request-Headers"] {
+				found := false
+				for _, l := range listed {
+					if strings.EqualFold(l, want) {
+						found = true
+					}
+				}
+				if !found {
+					return vlib.Failf("configuration with %d allowed request-header names, debug on: the answer to a preflight asking for %q lists %d names and not that one", n, want, len(listed))
+				}
+			}
+			return nil
+		}
 		return c09Diag(k.DiagCfg, *k.DiagReq)
 	}
 	m, r, err := smInit(k.Init)
@@ -460,6 +487,41 @@ func checkC09(c *vlib.Ctx) (string, string) {
 			r := smSuiteFull[i]
 			c.Transitions.Add(2)
 			ck.Try(c09Case{Init: "debug-only-diagnostics", DiagCfg: name, DiagReq: &r})
+		}
+	}
+	// long allowed lists: every name requested on its own, debug off and on (the debug-mode answer must still cover it)
+	for _, n := range []int{400, 1500} {
+		var names []string
+		for i := 0; i < n; i++ {
+			names = append(names, fmt.Sprintf("X-Header-%04d", i))
+		}
+		bigCfg := CfgLit{Origins: []string{"https://a.example"}, RequestHeaders: names, Methods: []string{"PUT"}, MaxAge: 60}
+		mOff, e1 := cors.NewMiddleware(bigCfg.Config())
+		mOn, e2 := cors.NewMiddleware(bigCfg.Config())
+		if e1 != nil || e2 != nil {
+			continue
+		}
+		mOn.SetDebug(true)
+		hOff, hOn := mOff.Wrap(noopHandler), mOn.Wrap(noopHandler)
+		for i := 0; i < n; i++ {
+			r := vlib.Req{Method: "OPTIONS", Hdr: map[string][]string{"Origin": {"https://a.example"}, "Access-Control-Request-Method": {"PUT"}, "Access-Control-Request-Headers": {strings.ToLower(names[i])}}}
+			c.Transitions.Add(2)
+			a, b := vlib.Serve(hOff, nil, r, nil), vlib.Serve(hOn, nil, r, nil)
+			ok := a.Status == b.Status && a.Status/100 == 2
+			if ok {
+				ok = false
+				listed, _, _ := ref.ExtractList(b.Hdr, "Access-Control-Allow-Headers")
+				for _, l := range listed {
+					if strings.EqualFold(l, names[i]) {
+						ok = true
+					}
+				}
+			}
+			if !ok {
+				k := c09Case{Init: "debug-only-diagnostics", DiagCfg: fmt.Sprintf("big:%d", n), DiagReq: &r}
+				ck.Report(k, vlib.Failf("configuration with %d allowed request-header names: a preflight asking for %q is answered %s with debug off and %s with debug on", n, names[i], a.Sig()[:min(200, len(a.Sig()))], b.Sig()[:min(200, len(b.Sig()))]))
+				break
+			}
 		}
 	}
 	c.Set("probe_suite_requests", len(smSuite))
